@@ -22,7 +22,30 @@ def run(tier, replay):
         trace = sc.path("trace.ndjson")
         vlib.run_harness(["cors", "--cases", cases, "--out", trace, "--scratch", sc.path("site")])
         tv = vlib.validate_trace("Trace_Cors", trace, heap="8g")
+        # wire surface: a real server per configuration (the start-up path fills the variables the policy reads)
+        wtrace = sc.path("wire_trace.ndjson")
+        wcases = sc.path("wire_cases.ndjson")
+        with open(cases) as f, open(wcases, "w") as o:
+            for n, line in enumerate(f):
+                if tier == "thorough" or n % 4 == 0:
+                    o.write(line)
+        vlib.run_harness(["cors", "--cases", wcases, "--out", wtrace, "--scratch", sc.path("wsite"), "--bin", vlib.build_rws_binary()], timeout=3000)
+        tvw = vlib.validate_trace("Trace_Cors", wtrace, heap="8g")
         verdict = vlib.Verdict("C11")
+        for t_, tv_ in ((wtrace, tvw),):
+            evs = vlib.read_ndjson(t_) if tv_.fails else []
+            cfg_ = None
+            at = {}
+            for i, e in enumerate(evs, 1):
+                if e["ev"] == "Config":
+                    cfg_ = e["cfg"]
+                at[i] = cfg_
+            for f in tv_.fails:
+                e = evs[f["i"] - 1]
+                c = at[f["i"]]
+                verdict.reject(signature(sorted(f["props"]), e["q"]),
+                               {"surface": "wire", "clauses": sorted(f["props"]), "q": e["q"], "cfg": {k: c[k] for k in ("all", "origins", "creds", "methods", "headers", "maxage")},
+                                "access_control_headers": [[h["n"], h["v"]] for h in e["r"]["hs"] if h["nl"].startswith("access-control-")]})
         events = vlib.read_ndjson(trace) if tv.fails else []
         cfg = None
         cfg_at = {}
@@ -38,7 +61,7 @@ def run(tier, replay):
                             "access_control_headers": [[h["n"], h["v"]] for h in e["r"]["hs"] if h["nl"].startswith("access-control-")]})
         ev["coverage"] = {
             "states": mc.distinct + gen.distinct, "transitions": mc.generated + gen.generated,
-            "traces_validated_against_impl": tv.done[0], "spec_cases_replayed": len(gen.cases),
+            "traces_validated_against_impl": tv.done[0] + tvw.done[0], "wire_requests": tvw.done[0], "spec_cases_replayed": len(gen.cases),
             "samples": [{"origin": "https://foo.exampl", "configured": ["https://foo.example"], "method": "OPTIONS"}],
             "rule": "MC_Cors: the decision procedure for all configurations over a small alphabet (substring variant refuted); Gen_Cors: %s configurations "
                     "(switch, 0/1/2/4 origins, credentials, method/header lists, max-age) x 25 Origin values (configured, prefixes, suffixes, substrings, case variants, "
